@@ -365,8 +365,50 @@ func (fr *Frame) callStatic(fn *ssa.Function, bindings []Term, args []Term, sig 
 		}
 		return fr.inline(fn, bindings, args, c, ins)
 	}
+	if pureStdFunc(fn) {
+		// a standard-library function over strings, numbers and booleans only (strings.Contains, strconv.Itoa,
+		// ...): no memory it could change; its result is an unknown value of its type
+		g.usedAssumed["pure standard-library function "+key] = true
+		return fr.ignoredCall(sig, key, c, ins)
+	}
 	g.fail("no contract for %s (called in %s)", key, funcKey(fr.fn))
 	return nil
+}
+
+// pureStdFunc: a package-level function of the standard library all of whose parameters and results are strings,
+// numbers or booleans.
+func pureStdFunc(fn *ssa.Function) bool {
+	if fn.Pkg == nil || fn.Signature.Recv() != nil {
+		return false
+	}
+	path := fn.Pkg.Pkg.Path()
+	first := path
+	if i := strings.Index(path, "/"); i >= 0 {
+		first = path[:i]
+	}
+	if strings.Contains(first, ".") {
+		return false // not the standard library
+	}
+	switch path {
+	case "os", "time", "sync", "sync/atomic", "runtime", "math/rand", "crypto/rand", "log", "syscall":
+		return false
+	}
+	basic := func(t types.Type) bool {
+		b, ok := t.Underlying().(*types.Basic)
+		return ok && b.Kind() != types.UnsafePointer && b.Kind() != types.Uintptr
+	}
+	ps, rs := fn.Signature.Params(), fn.Signature.Results()
+	for i := 0; i < ps.Len(); i++ {
+		if !basic(ps.At(i).Type()) {
+			return false
+		}
+	}
+	for i := 0; i < rs.Len(); i++ {
+		if !basic(rs.At(i).Type()) {
+			return false
+		}
+	}
+	return rs.Len() > 0
 }
 
 // autoInline: small loop-free functions of the repository may be inlined when they have no contract.
